@@ -110,7 +110,6 @@ pub fn default_guards() -> Vec<String> {
     [
         "update_inside_open_or_overlapping_txn", // D5, D28, D25
         "update_of_uniquely_constrained_column", // D7, D24
-        "delete_after_rolled_back_delete",       // D27
         "drop_table_inside_session",             // D6
         "concurrent_writers_same_row",           // D8
         "concurrent_inserts_same_key",           // D10
